@@ -182,8 +182,11 @@ def check_case(case):
 
         d = tempfile.mkdtemp(prefix="vk02.")
         try:
+            k = gen.pick(case, "cli-center", 6)
             diff = cli.call_diff(cnarr, d, "threshold", ploidy, None, male_ref, None, None, None,
-                                 None if case["thresholds"] == "default" else thr)
+                                 None if case["thresholds"] == "default" else thr,
+                                 center=[None, None, None, "median", "mean", None][k], center_at=0.25 if k == 5 else None,
+                                 drop_low=k == 4)
             if diff:
                 bad("cli:call", diff)
         finally:
